@@ -209,7 +209,9 @@ Lemma rarg_f_spec r re full :
   match rarg_f r re full with
   | None => re <> EP_INF /\ lex_lt full r = false
   | Some None => False
-  | Some (Some (ar, are)) => forall rest, in_right ar are (full ++ rest) = in_right r re (full ++ rest)
+  | Some (Some (ar, are)) =>
+      (re = EP_INF -> are = EP_INF) /\
+      forall rest, in_right ar are (full ++ rest) = in_right r re (full ++ rest)
   end.
 Proof.
   assert (re <> EP_INF ->
@@ -221,17 +223,19 @@ Proof.
            end) with
     | None => re <> EP_INF /\ lex_lt full r = false
     | Some None => False
-    | Some (Some (ar, are)) => forall rest, in_right ar are (full ++ rest) = in_right r re (full ++ rest)
+    | Some (Some (ar, are)) =>
+        (re = EP_INF -> are = EP_INF) /\
+        forall rest, in_right ar are (full ++ rest) = in_right r re (full ++ rest)
     end) as G.
   { intros Hre. cbv zeta. pose proof (cmp_pref_spec r full) as C.
     destruct (memcmp_bytes r full (Nat.min (length r) (length full))).
     - specialize (C []). rewrite app_nil_r in C. split; [exact Hre|apply lex_lt_asym; exact C].
     - destruct C as [C1 _]. destruct (Nat.leb_spec (length r) (length full)) as [H|H].
       + destruct (C1 H) as [x ->]. split; [exact Hre|apply lex_lt_prefix_le].
-      + intros rest. reflexivity.
-    - intros rest. cbn [in_right]. symmetry. apply in_right_gt. apply C. }
+      + split; [exact (fun H => H)|]. intros rest. reflexivity.
+    - split; [reflexivity|]. intros rest. cbn [in_right]. symmetry. apply in_right_gt. apply C. }
   unfold rarg_f. destruct re; [apply G; discriminate|apply G; discriminate|].
-  intros rest. reflexivity.
+  split; [reflexivity|]. intros rest. reflexivity.
 Qed.
 
 Definition pass_left_f (l : key) (le : endpoint) (kt : ktuple) : bool :=
@@ -521,19 +525,24 @@ Section Entries.
   Proof. destruct re; rewrite ?inr_f_spec by discriminate; reflexivity. Qed.
 
   Variable ls : layers_t.
-  Variable f : nat.
+  (** [C s]: what entry [s] contributes, in the order of the scan; [Csub x]: the
+      contents of the layer below the link with slice [x], in that order *)
+  Variable C : slot_t -> list (key * value).
+  Variable Csub : N -> list (key * value).
+  Hypothesis HCv : forall s v, sl_lv s = LValue v -> C s = [(pb ++ tbytes (sl_key s), v)].
+  Hypothesis HCl : forall s, sl_lv s = LLink -> C s = Csub (ks (sl_key s)).
   Hypothesis Hl : bytes l.
   Hypothesis Hsub : forall x al ale ar are acc,
     layer_get ls (p ++ [x]) <> None -> bytes al -> (ale = EP_INF -> al = []) ->
-    mr mx (ac_tuples acc) = false ->
+    (re = EP_INF -> are = EP_INF) -> mr mx (ac_tuples acc) = false ->
     exists acc', sub (p ++ [x]) (pb ++ bytes_of_slice x 8) al ale ar are acc = Some acc' /\
       ac_tuples acc' =
         trunc mx (ac_tuples acc ++
                   filter (Pabs (pb ++ bytes_of_slice x 8) al ale ar are)
-                         (clayer f ls (p ++ [x]) (pb ++ bytes_of_slice x 8))).
+                         (Csub x)).
 
   Local Notation P := (Pabs pb l le r re).
-  Local Notation CE := (cent f ls p pb).
+  Local Notation CE := C.
 
   Definition eok (s : slot_t) : Prop :=
     entry_ok s /\
@@ -594,7 +603,7 @@ Section Entries.
 
   Lemma scan_entries_spec : forall es later pushed acc,
     Forall eok (map snd es ++ later) ->
-    sorted_keys (map sl_key (map snd es ++ later)) ->
+    (re <> EP_INF -> sorted_keys (map sl_key (map snd es ++ later))) ->
     mr mx (ac_tuples acc) = false ->
     se_post acc (map snd es) later (SE es pushed acc).
   Proof.
@@ -603,13 +612,16 @@ Section Entries.
     - cbn [map snd] in Hok, Hsorted |- *. rewrite <- app_comm_cons in Hok, Hsorted.
       pose proof Hok as Hok0. pose proof Hsorted as Hsorted0.
       apply Forall_cons_iff in Hok. destruct Hok as [Hs Hok].
-      cbn [map] in Hsorted. apply sorted_cons_iff in Hsorted. destruct Hsorted as [Hsorted _].
+      assert (re <> EP_INF -> sorted_keys (map sl_key (map snd rest ++ later))) as Hsorted1.
+      { intros Hre. specialize (Hsorted Hre). cbn [map] in Hsorted. apply sorted_cons_iff in Hsorted.
+        apply Hsorted. }
+      clear Hsorted. rename Hsorted1 into Hsorted.
       destruct Hs as ((Hw & Hlv) & Hlink & Hshape).
       rewrite scan_entries_cons. cbv zeta.
       destruct (sl_lv s) as [|v|] eqn:Elv; [contradiction| |].
       + (* a value *)
         destruct (N.ltb_spec 8 (kl (sl_key s))) as [X|_]; [lia|].
-        assert (CE s = [(pb ++ tbytes (sl_key s), v)]) as ECE by (unfold cent; rewrite Elv; reflexivity).
+        pose proof (HCv s v Elv) as ECE.
         assert (P (pb ++ tbytes (sl_key s), v) =
                 in_left l le (tbytes (sl_key s)) && in_right r re (pb ++ tbytes (sl_key s))) as EP.
         { unfold Pabs. cbn [fst]. rewrite in_left_app. reflexivity. }
@@ -630,7 +642,8 @@ Section Entries.
           -- (* beyond the right end *)
              pose proof ER as ER0. apply in_right_false_le in ER. destruct ER as [Hre Hdead].
              assert (filter P (flat_map CE (s :: map snd rest ++ later)) = []) as D.
-             { apply dead_filter; try assumption. intros kv Hkv. rewrite ECE in Hkv.
+             { apply dead_filter; try assumption; [|apply Hsorted0; exact Hre].
+               intros kv Hkv. rewrite ECE in Hkv.
                destruct Hkv as [<-|[]]. exact ER0. }
              cbn [se_post]. rewrite <- app_comm_cons, D, app_nil_r.
              destruct pushed; cbn [ac_tuples acc_push_nv]; symmetry; apply trunc_id; exact Hmr.
@@ -638,8 +651,7 @@ Section Entries.
           rewrite ECE. cbn [filter]. rewrite EP. reflexivity.
       + (* a link *)
         set (kt := sl_key s) in *.
-        assert (CE s = clayer f ls (p ++ [ks kt]) (pb ++ bytes_of_slice (ks kt) 8)) as ECE
-          by (unfold cent; rewrite Elv; reflexivity).
+        pose proof (HCl s Elv) as ECE. fold kt in ECE.
         rewrite Hlv. change (8 <? 9) with true. cbv iota.
         change (bytes_of_slice (ks kt) 9) with (bytes_of_slice (ks kt) 8).
         assert (forall kv, In kv (CE s) ->
@@ -653,10 +665,10 @@ Section Entries.
         * destruct LA as [[Hal Hinf] LA].
           pose proof (rarg_f_spec r re (pb ++ bytes_of_slice (ks kt) 8)) as RA.
           destruct (rarg_f r re (pb ++ bytes_of_slice (ks kt) 8)) as [[[ar are]|]|].
-          -- destruct (Hsub (ks kt) al ale ar are acc (Hlink eq_refl) Hal Hinf Hmr) as (acc1 & Es & Ts).
+          -- destruct RA as [RAi RA].
+             destruct (Hsub (ks kt) al ale ar are acc (Hlink eq_refl) Hal Hinf RAi Hmr) as (acc1 & Es & Ts).
              rewrite Es.
-             assert (filter (Pabs (pb ++ bytes_of_slice (ks kt) 8) al ale ar are)
-                            (clayer f ls (p ++ [ks kt]) (pb ++ bytes_of_slice (ks kt) 8)) =
+             assert (filter (Pabs (pb ++ bytes_of_slice (ks kt) 8) al ale ar are) (Csub (ks kt)) =
                      filter P (CE s)) as EF.
              { rewrite ECE. apply filter_ext_in. intros kv Hkv. rewrite <- ECE in Hkv.
                destruct (Hkeys kv Hkv) as (rest' & E & Hb' & Hne). unfold Pabs. rewrite E.
@@ -674,7 +686,8 @@ Section Entries.
              { apply dead_filter; try assumption.
                - fold kt. rewrite (tbytes9 kt Hlv). exact Hdead.
                - intros kv Hkv. destruct (Hkeys kv Hkv) as (rest' & -> & Hb' & Hne).
-                 eapply in_right_dead; [exact Hre|exact Hdead|]. apply lex_lt_prefix. exact Hne. }
+                 eapply in_right_dead; [exact Hre|exact Hdead|]. apply lex_lt_prefix. exact Hne.
+               - apply Hsorted0. exact Hre. }
              cbn [se_post]. rewrite <- app_comm_cons, D, app_nil_r.
              destruct (fix2 && negb pushed); cbn [ac_tuples acc_push_nv]; symmetry; apply trunc_id; exact Hmr.
         * apply se_post_skip; [|apply IH; assumption].
@@ -683,7 +696,14 @@ Section Entries.
   Qed.
 End Entries.
 
-(** ** 6. the border chain: [scan_leaves], left to right *)
+(** ** 6. the border chain: [scan_leaves] *)
+Lemma flat_map_rev {A B} (g : A -> list B) l :
+  flat_map (fun x => rev (g x)) (rev l) = rev (flat_map g l).
+Proof.
+  induction l as [|a l IH]; [reflexivity|]. cbn [rev flat_map].
+  rewrite flat_map_app, IH, rev_app_distr. cbn [flat_map]. rewrite app_nil_r. reflexivity.
+Qed.
+
 Section Leaves.
   Variable fix2 : bool.
   Variable sub : prefix -> key -> key -> endpoint -> key -> endpoint -> scan_acc -> option scan_acc.
@@ -693,30 +713,39 @@ Section Leaves.
   Variable ls : layers_t.
   Variable f : nat.
   Hypothesis Hl : bytes l.
+
+  Local Notation CE := (cent f ls p pb).
+  Local Notation CS := (fun x => clayer f ls (p ++ [x]) (pb ++ bytes_of_slice x 8)).
+
+  Lemma cent_value s v : sl_lv s = LValue v -> CE s = [(pb ++ tbytes (sl_key s), v)].
+  Proof. intros E. unfold cent. rewrite E. reflexivity. Qed.
+  Lemma cent_link s : sl_lv s = LLink -> CE s = CS (ks (sl_key s)).
+  Proof. intros E. unfold cent. rewrite E. reflexivity. Qed.
+
+  Section Fwd.
   Hypothesis Hsub : forall x al ale ar are acc,
     layer_get ls (p ++ [x]) <> None -> bytes al -> (ale = EP_INF -> al = []) ->
-    mr mx (ac_tuples acc) = false ->
+    (re = EP_INF -> are = EP_INF) -> mr mx (ac_tuples acc) = false ->
     exists acc', sub (p ++ [x]) (pb ++ bytes_of_slice x 8) al ale ar are acc = Some acc' /\
       ac_tuples acc' =
-        trunc mx (ac_tuples acc ++
-                  filter (Pabs (pb ++ bytes_of_slice x 8) al ale ar are)
-                         (clayer f ls (p ++ [x]) (pb ++ bytes_of_slice x 8))).
+        trunc mx (ac_tuples acc ++ filter (Pabs (pb ++ bytes_of_slice x 8) al ale ar are) (CS x)).
 
   Lemma scan_leaves_spec : forall lvs acc,
-    Forall (eok p pb ls f) (flat_map leaf_entries lvs) ->
+    Forall (eok p pb ls CE) (flat_map leaf_entries lvs) ->
     sorted_keys (map sl_key (flat_map leaf_entries lvs)) ->
     mr mx (ac_tuples acc) = false ->
     exists acc', scan_leaves fix2 sub mx false p pb l le r re lvs acc = Some acc' /\
       ac_tuples acc' =
         trunc mx (ac_tuples acc ++
-                  filter (Pabs pb l le r re) (flat_map (cent f ls p pb) (flat_map leaf_entries lvs))).
+                  filter (Pabs pb l le r re) (flat_map CE (flat_map leaf_entries lvs))).
   Proof.
     induction lvs as [|lf rest IH]; intros acc Hok Hsorted Hmr.
     - exists acc. split; [reflexivity|]. cbn [flat_map filter]. rewrite app_nil_r.
       symmetry. apply trunc_id. exact Hmr.
     - cbn [scan_leaves flat_map] in *.
-      pose proof (scan_entries_spec fix2 sub mx p pb l le r re (lf_id lf) (lf_ver lf) ls f Hl Hsub
-                    (leaf_ranked lf) (flat_map leaf_entries rest) false acc Hok Hsorted Hmr) as S.
+      pose proof (scan_entries_spec fix2 sub mx p pb l le r re (lf_id lf) (lf_ver lf) ls CE CS
+                    cent_value cent_link Hl Hsub
+                    (leaf_ranked lf) (flat_map leaf_entries rest) false acc Hok (fun _ => Hsorted) Hmr) as S.
       fold (leaf_entries lf) in S.
       destruct (scan_entries fix2 sub mx p pb l le r re (lf_id lf) (lf_ver lf) (leaf_ranked lf) false acc)
         as [[res pu] acc1].
@@ -733,6 +762,50 @@ Section Leaves.
         rewrite T', E2, T1, flat_map_app, filter_app, app_assoc. reflexivity.
       + contradiction.
   Qed.
+  End Fwd.
+
+  (** right to left: one border, its entries in reverse *)
+  Section Rtl.
+  Hypothesis Hre : re = EP_INF.
+  Hypothesis Hsub : forall x al ale ar are acc,
+    layer_get ls (p ++ [x]) <> None -> bytes al -> (ale = EP_INF -> al = []) ->
+    (re = EP_INF -> are = EP_INF) -> mr mx (ac_tuples acc) = false ->
+    exists acc', sub (p ++ [x]) (pb ++ bytes_of_slice x 8) al ale ar are acc = Some acc' /\
+      ac_tuples acc' =
+        trunc mx (ac_tuples acc ++ filter (Pabs (pb ++ bytes_of_slice x 8) al ale ar are) (rev (CS x))).
+
+  Lemma scan_leaves_rtl_one lf acc :
+    Forall (eok p pb ls CE) (leaf_entries lf) ->
+    mr mx (ac_tuples acc) = false ->
+    exists acc', scan_leaves fix2 sub mx true p pb l le r re [lf] acc = Some acc' /\
+      ac_tuples acc' =
+        trunc mx (ac_tuples acc ++ filter (Pabs pb l le r re) (rev (flat_map CE (leaf_entries lf)))).
+  Proof.
+    intros Hok Hmr. cbn [scan_leaves].
+    assert (Forall (eok p pb ls (fun s => rev (CE s))) (map snd (rev (leaf_ranked lf)) ++ [])) as Hok'.
+    { rewrite app_nil_r, map_rev. fold (leaf_entries lf). apply Forall_rev.
+      eapply Forall_impl; [|exact Hok]. intros s (A & B & D). split; [exact A|]. split; [exact B|].
+      intros kv Hkv. apply D. apply in_rev. exact Hkv. }
+    pose proof (scan_entries_spec fix2 sub mx p pb l le r re (lf_id lf) (lf_ver lf) ls
+                  (fun s => rev (CE s)) (fun x => rev (CS x))
+                  (fun s v E => f_equal (@rev _) (cent_value s v E))
+                  (fun s E => f_equal (@rev _) (cent_link s E)) Hl Hsub
+                  (rev (leaf_ranked lf)) [] false acc Hok'
+                  (fun H => False_ind _ (H Hre)) Hmr) as S.
+    rewrite map_rev in S. fold (leaf_entries lf) in S.
+    destruct (scan_entries fix2 sub mx p pb l le r re (lf_id lf) (lf_ver lf) (rev (leaf_ranked lf)) false acc)
+      as [[res pu] acc1].
+    destruct res; cbn [se_post] in S.
+    - rewrite app_nil_r, (flat_map_rev CE) in S. exists acc1. split; [reflexivity|exact S].
+    - destruct S as [M1 T1]. rewrite (flat_map_rev CE) in T1. eexists. split; [reflexivity|].
+      assert (forall a : scan_acc, ac_tuples a = ac_tuples acc1 ->
+                ac_tuples a = trunc mx (ac_tuples acc ++
+                   filter (Pabs pb l le r re) (rev (flat_map CE (leaf_entries lf))))) as G.
+      { intros a ->. rewrite <- T1. symmetry. apply trunc_id. exact M1. }
+      destruct pu; apply G; reflexivity.
+    - contradiction.
+  Qed.
+  End Rtl.
 End Leaves.
 
 (** ** 7. the descent *)
@@ -886,6 +959,61 @@ Proof.
     exfalso. apply Hb. rewrite E. apply in_map. apply in_or_app. right. left. reflexivity.
 Qed.
 
+(** *** the descent of a right-to-left scan: (0xff..ff, 8) reaches the last border unless
+    some separator is (0xff..ff, 9) *)
+Definition dmax : ktuple := {| ks := 18446744073709551615; kl := 8 |}.
+Definition maxsep : ktuple := {| ks := 18446744073709551615; kl := 9 |}.
+
+Fixpoint bt_seps (t : bt) : list ktuple :=
+  match t with
+  | BLeaf _ => []
+  | BInt _ _ keys ch => keys ++ flat_map bt_seps ch
+  end.
+
+Definition rtl_ok (ls : layers_t) : Prop :=
+  forall p root, layer_get ls p = Some root -> ~ In maxsep (bt_seps root).
+
+Lemma route_none keys k :
+  (forall s, In s keys -> route_probe k s = false) -> forall i, route keys k i = (i + length keys)%nat.
+Proof.
+  induction keys as [|s keys IH]; intros H i; cbn [route length]; [lia|].
+  rewrite (H s (or_introl eq_refl)). rewrite IH; [lia|]. intros s' Hs'. apply H. right. exact Hs'.
+Qed.
+
+Lemma dmax_probe s : kt_wf s = true -> s <> maxsep -> route_probe dmax s = false.
+Proof.
+  intros Hw Hne. rewrite (route_probe_site dmax s eq_refl Hw).
+  apply kt_wf_spec in Hw. destruct Hw as (H9 & H64 & _).
+  unfold canon_lt, dmax. cbn [ks kl].
+  destruct (N.eq_dec (ks s) 18446744073709551615) as [E1|E1];
+    destruct (N.eq_dec (kl s) 9) as [E2|E2]; try lia.
+  exfalso. apply Hne. destruct s as [a b]. cbn [ks kl] in *. subst. reflexivity.
+Qed.
+
+Lemma bt_find_leaf_last fuel : forall t lo hi,
+  WF_bt lo hi t -> ~ In maxsep (bt_seps t) -> (bt_height t < fuel)%nat ->
+  exists lf before, bt_find_leaf fuel t dmax = Some lf /\ bt_leaves t = before ++ [lf].
+Proof.
+  induction fuel as [|fu IH]; intros t lo hi Hwf Hno Hh; [lia|].
+  destruct t as [lf|id ver keys ch].
+  - exists lf, []. split; reflexivity.
+  - apply WF_int_iff in Hwf. destruct Hwf as (_ & Hlen & _ & Hw & _ & Hc & _).
+    cbn [bt_seps] in Hno.
+    assert (route keys dmax 0 = length keys) as Er.
+    { rewrite route_none; [lia|]. intros s Hs. apply dmax_probe.
+      - rewrite Forall_forall in Hw. apply Hw. exact Hs.
+      - intros ->. apply Hno. apply in_or_app. left. exact Hs. }
+    set (i := length keys) in *. assert (i < length ch)%nat as Hi by lia.
+    cbn [bt_find_leaf]. rewrite Er, (nth_error_child ch i Hi).
+    destruct (IH (nth i ch dbt) _ _ (Hc i Hi)) as (lf & b' & E & EL).
+    { intros X. apply Hno. apply in_or_app. right. apply in_flat_map. exists (nth i ch dbt).
+      split; [apply nth_In; exact Hi|exact X]. }
+    { pose proof (height_child id ver keys ch i Hi). lia. }
+    exists lf, (flat_map bt_leaves (firstn i ch) ++ b'). split; [exact E|].
+    cbn [bt_leaves]. rewrite (flat_map_split bt_leaves dbt ch i Hi), EL.
+    rewrite (skipn_all2 ch) by lia. cbn [flat_map]. rewrite app_nil_r, app_assoc. reflexivity.
+Qed.
+
 (** ** 8. one layer and the layers below it, left to right *)
 Section Layer.
   Variable ctr : N.
@@ -893,7 +1021,7 @@ Section Layer.
   Hypothesis W : WFL ctr ls None.
 
   Lemma eok_all p pb f root :
-    layer_get ls p = Some root -> Forall (eok p pb ls f) (bt_elems root).
+    layer_get ls p = Some root -> Forall (eok p pb ls (cent f ls p pb)) (bt_elems root).
   Proof.
     intros Eg. pose proof (wl_layer _ _ _ W) as Hwf. pose proof (wl_nz _ _ _ W) as Hnz.
     apply Forall_forall. intros s Hin.
@@ -949,7 +1077,7 @@ Section Layer.
     apply sorted_app_iff in Hsorted. destruct Hsorted as (_ & Hsorted2 & _).
     destruct (scan_leaves_spec fix2 (scan_layer fix2 f ls mx false) mx p pb l le r re ls f Hl) with
       (lvs := lf :: after) (acc := acc) as (acc' & Es & Ts); try assumption.
-    { intros x al ale ar are acc0 Hex0 Hal Hinf0 Hmr0. apply IH; try assumption.
+    { intros x al ale ar are acc0 Hex0 Hal Hinf0 _ Hmr0. apply IH; try assumption.
       rewrite app_length. cbn [length]. lia. }
     exists acc'. split; [exact Es|]. rewrite Ts, <- Eel, flat_map_app, filter_app.
     assert (filter (Pabs pb l le r re) (flat_map (cent f ls p pb) (flat_map leaf_entries before)) = []) as ->;
@@ -969,4 +1097,519 @@ Section Layer.
     - rewrite H2. reflexivity.
     - rewrite (Hinf eq_refl), lex_lt_nil_r in H2. discriminate.
   Qed.
+
+  (** *** right to left *)
+  Lemma cent_nonempty f p pb root s :
+    layer_get ls p = Some root -> In s (bt_elems root) -> (length ls < S f + length p)%nat ->
+    (forall p' pb', layer_get ls p' <> None -> p' <> [] -> (length ls < f + length p')%nat ->
+                    clayer f ls p' pb' <> []) ->
+    cent f ls p pb s <> [].
+  Proof.
+    intros Eg Hin Hfuel IH. pose proof (eok_all p pb f root Eg) as Hok. rewrite Forall_forall in Hok.
+    destruct (Hok s Hin) as ((_ & Hlv) & Hlink & _). unfold cent.
+    destruct (sl_lv s); [contradiction|discriminate|].
+    apply IH; [apply Hlink; reflexivity|destruct p; discriminate|]. rewrite app_length. cbn [length]. lia.
+  Qed.
+
+  Lemma clayer_nonempty : forall f p pb,
+    layer_get ls p <> None -> p <> [] -> (length ls < f + length p)%nat -> clayer f ls p pb <> [].
+  Proof.
+    induction f as [|f IH]; intros p pb Hex Hp Hfuel.
+    { pose proof (layer_depth ctr ls None p W Hex). lia. }
+    rewrite clayer_S. destruct (layer_get ls p) as [root|] eqn:Eg; [|contradiction].
+    destruct (exists_last Hp) as (q & x & ->).
+    destruct (wl_parent _ _ _ W q x root Eg) as [Hne _].
+    destruct (bt_elems root) as [|s rest] eqn:Eel; [contradiction|]. cbn [flat_map].
+    intros X. apply app_eq_nil in X. destruct X as [X _]. revert X.
+    apply (cent_nonempty f (q ++ [x]) pb root s Eg); [rewrite Eel; left; reflexivity|lia|exact IH].
+  Qed.
+
+  Theorem scan_layer_rtl : rtl_ok ls -> forall fuel p pb l le r acc,
+    layer_get ls p <> None -> (length ls < fuel + length p)%nat ->
+    bytes l -> (le = EP_INF -> l = []) -> mr 1 (ac_tuples acc) = false ->
+    exists acc',
+      scan_layer fix2 fuel ls 1 true p pb l le r EP_INF acc = Some acc' /\
+      ac_tuples acc' =
+        trunc 1 (ac_tuples acc ++ filter (Pabs pb l le r EP_INF) (rev (clayer fuel ls p pb))).
+  Proof.
+    intros Hrtl. induction fuel as [|f IH]; intros p pb l le r acc Hex Hfuel Hl Hinf Hmr.
+    { pose proof (layer_depth ctr ls None p W Hex). lia. }
+    cbn [scan_layer]. rewrite clayer_S.
+    destruct (layer_get ls p) as [root|] eqn:Eg; [|contradiction].
+    destruct (wl_layer _ _ _ W p root Eg) as [Hwf Hnd].
+    change (scan_descent_tuple l true) with dmax.
+    destruct (bt_find_leaf_last (S (bt_height root)) root None None Hwf (Hrtl p root Eg) ltac:(lia))
+      as (lf & before & Ef & Elv).
+    unfold find_leaf. rewrite Ef, Elv.
+    rewrite skip_to_split by (rewrite <- Elv; apply leaves_ids_NoDup; exact Hnd).
+    pose proof (bt_leaves_elems root) as Eel. rewrite Elv, flat_map_app in Eel.
+    cbn [flat_map] in Eel. rewrite app_nil_r in Eel.
+    pose proof (eok_all p pb f root Eg) as Hok. rewrite <- Eel in Hok.
+    pose proof (WF_bt_sorted None None root Hwf) as Hsorted. unfold bt_keys in Hsorted.
+    rewrite <- Eel, map_app in Hsorted.
+    apply Forall_app in Hok. destruct Hok as [Hok1 Hok2].
+    apply sorted_app_iff in Hsorted. destruct Hsorted as (_ & _ & Hcross).
+    destruct (scan_leaves_rtl_one fix2 (scan_layer fix2 f ls 1 true) 1 p pb l le r EP_INF ls f Hl eq_refl)
+      with (lf := lf) (acc := acc) as (acc' & Es & Ts); try assumption.
+    { intros x al ale ar are acc0 Hex0 Hal Hinf0 Hare Hmr0.
+      rewrite (Hare eq_refl).
+      apply IH; try assumption.
+      rewrite app_length. cbn [length]. lia. }
+    exists acc'. split; [exact Es|]. rewrite Ts, <- Eel, flat_map_app, rev_app_distr, filter_app.
+    set (Fl := filter (Pabs pb l le r EP_INF) (rev (flat_map (cent f ls p pb) (leaf_entries lf)))).
+    set (Fb := filter (Pabs pb l le r EP_INF) (rev (flat_map (cent f ls p pb) (flat_map leaf_entries before)))).
+    destruct Fl as [|x Fl'] eqn:EFl.
+    - (* nothing in the last border: nothing before it either *)
+      assert (Fb = []) as ->; [|reflexivity].
+      unfold Fb. apply filter_nil_iff. intros kv Hkv. apply in_rev in Hkv.
+      apply in_flat_map in Hkv. destruct Hkv as (sb & Hsb & Hkv).
+      assert (In lf (bt_leaves root)) as Hlf by (rewrite Elv; apply in_or_app; right; left; reflexivity).
+      destruct (bt_leaves_nonempty_root None None root Hwf lf Hlf) as [Hne|Hroot].
+      2:{ exfalso. subst root. cbn [bt_leaves] in Elv. destruct before as [|b0 before]; [destruct Hsb|].
+          apply (f_equal (@length leaf)) in Elv. rewrite app_length in Elv. cbn [length] in Elv. lia. }
+      destruct (leaf_entries lf) as [|s0 more] eqn:Els; [contradiction|].
+      assert (In s0 (bt_elems root)) as Hs0 by (rewrite <- Eel; apply in_or_app; right; left; reflexivity).
+      pose proof (cent_nonempty f p pb root s0 Eg Hs0 Hfuel (clayer_nonempty f)) as Hc0.
+      destruct (cent f ls p pb s0) as [|kv0 c0] eqn:Ec0; [contradiction|].
+      assert (Pabs pb l le r EP_INF kv0 = false) as P0.
+      { assert (filter (Pabs pb l le r EP_INF)
+                       (rev (flat_map (cent f ls p pb) (s0 :: more))) = []) as X by exact EFl.
+        rewrite filter_nil_iff in X. apply X. apply in_rev. rewrite rev_involutive.
+        cbn [flat_map]. rewrite Ec0. left. reflexivity. }
+      rewrite Forall_forall in Hok1, Hok2.
+      destruct (Hok1 sb Hsb) as (_ & _ & Hshb). destruct (Hshb kv Hkv) as (restb & Eb & Bb & Tb).
+      destruct (Hok2 s0 (or_introl eq_refl)) as (_ & _ & Hsh0).
+      destruct (Hsh0 kv0) as (rest0 & E0 & B0 & T0); [rewrite Ec0; left; reflexivity|].
+      assert (lex_lt restb rest0 = true) as Hlt.
+      { rewrite (lex_tuple restb rest0 Bb B0), Tb, T0.
+        rewrite (Hcross (sl_key sb) (sl_key s0)); [reflexivity|apply in_map; exact Hsb|left; reflexivity]. }
+      unfold Pabs in P0 |- *. rewrite E0 in P0. rewrite Eb. cbn [in_right] in P0 |- *.
+      rewrite andb_true_r in P0 |- *.
+      eapply in_left_mono; [exact P0|]. rewrite lex_lt_app. exact Hlt.
+    - rewrite app_assoc. symmetry. apply trunc_reached.
+      unfold mr. cbn [Nat.eqb negb andb]. rewrite app_length. cbn [length].
+      apply Nat.leb_le. lia.
+  Qed.
 End Layer.
+
+(** ** 9. the public scan *)
+
+(** Two facts about reachable stores that [WF_store] does not record (both are needed:
+    see the counterexamples [scan_refines_needs_root_live] and [scan_refines_needs_rtl_ok]):
+    - [root_live]: a border of layer 0 flagged deleted-and-root only occurs in the empty store
+      (remove flags the emptied root border; the next insert into it clears the flag);
+    - [rtl_ok]: no interior separator is (0xffffffffffffffff, 9) (a separator is the first key of
+      the right half of a split border, which holds at least seven larger keys). *)
+Definition root_live (tr : tree) : Prop :=
+  forall root lf, layer_get (t_layers tr) [] = Some root -> In lf (bt_leaves root) ->
+    get_deleted (lf_ver lf) && get_root (lf_ver lf) = true -> bt_elems root = [].
+
+Lemma filter_rev {A} (P : A -> bool) l : filter P (rev l) = rev (filter P l).
+Proof.
+  induction l as [|a l IH]; [reflexivity|]. cbn [rev filter]. rewrite filter_app, IH. cbn [filter].
+  destruct (P a); [reflexivity|apply app_nil_r].
+Qed.
+
+Lemma find_leaf_descent root l rtl :
+  WF_bt None None root -> bytes l ->
+  exists start, find_leaf root (scan_descent_tuple l rtl) = Some start /\ In start (bt_leaves root).
+Proof.
+  intros Hwf Hl. destruct rtl.
+  - change (scan_descent_tuple l true) with dmax.
+    destruct (find_leaf_spec root dmax Hwf eq_refl) as (lf & E & _ & Hin & _). exists lf. split; assumption.
+  - set (l' := firstn (N.to_nat (N.of_nat (length l) mod 256)) l).
+    assert (bytes l') as Hl' by (apply Forall_firstn; exact Hl).
+    destruct (find_leaf_spec root (tuple_of_key l') Hwf (tuple_of_key_wf l' Hl')) as (lf & E & _ & Hin & _).
+    exists lf. split; [|exact Hin]. rewrite <- E. unfold find_leaf.
+    eapply bt_find_leaf_ext; [exact Hwf|]. intros s Hs. apply descent_equiv; assumption.
+Qed.
+
+Definition empty_acc : scan_acc := {| ac_tuples := []; ac_nv := [] |}.
+
+Lemma spec_scan_list_nil a : spec_scan_list [] a = [].
+Proof. unfold spec_scan_list. cbn [filter rev]. destruct (sa_rtl a); [reflexivity|]. destruct (Nat.eqb (sa_max a) 0); [reflexivity|apply firstn_nil]. Qed.
+
+Theorem scan_refines ctr tr a :
+  WF_store ctr tr -> t_null tr = false -> bytes (sa_l a) -> bytes (sa_r a) ->
+  root_live tr -> (sa_rtl a = true -> rtl_ok (t_layers tr)) ->
+  exists o, scan tr a = Some o /\
+    if spec_scan_args_ok a
+    then so_status o = St_OK /\
+         map (fun kv => (fst kv, abs_value (snd kv))) (so_tuples o) = spec_scan_list (abs_tree tr) a
+    else so_status o = St_ERR_BAD_USAGE /\ so_tuples o = [].
+Proof.
+  intros Wst Hnull Hbl _ Hlive Hrtl. unfold scan.
+  destruct (scan_validate_spec a) as [V1 V2].
+  destruct (spec_scan_args_ok a) eqn:Eok.
+  2:{ rewrite (V2 eq_refl). exists (scan_fail St_ERR_BAD_USAGE). split; [reflexivity|split; reflexivity]. }
+  rewrite (proj2 V1 eq_refl).
+  unfold WF_store in Wst. rewrite Hnull in Wst. rename Wst into W.
+  set (ls := t_layers tr) in *.
+  set (a' := scan_normalise a).
+  assert (sa_r a' = sa_r a /\ sa_re a' = sa_re a /\ sa_max a' = sa_max a /\ sa_rtl a' = sa_rtl a) as (Er & Ere & Emx & Ertl).
+  { unfold a', scan_normalise. destruct (sa_le a); repeat split; reflexivity. }
+  assert (bytes (sa_l a')) as Hbl'.
+  { unfold a', scan_normalise. destruct (sa_le a); cbn [sa_l]; try exact Hbl. constructor. }
+  assert (sa_le a' = EP_INF -> sa_l a' = []) as Hinf.
+  { unfold a', scan_normalise. destruct (sa_le a) eqn:E; cbn [sa_l sa_le]; rewrite ?E; try discriminate.
+    reflexivity. }
+  assert (forall k, in_left (sa_l a') (sa_le a') k = in_left (sa_l a) (sa_le a) k) as Hleft.
+  { intros k. unfold a', scan_normalise. destruct (sa_le a) eqn:E; cbn [sa_l sa_le]; rewrite ?E; reflexivity. }
+  unfold scan_body. rewrite Hnull. fold ls.
+  destruct (layer_get ls []) as [root|] eqn:Eg; [|exact (False_ind _ (wl_exc _ _ _ W Eg))].
+  destruct (wl_layer _ _ _ W [] root Eg) as [Hwf Hnd].
+  destruct (find_leaf_descent root (sa_l a') (sa_rtl a') Hwf Hbl') as (start & Efl & Hstart).
+  rewrite Efl.
+  assert (abs_tree tr = map abskv (clayer (S (length ls)) ls [] [])) as Eabs.
+  { unfold abs_tree. rewrite Hnull. fold ls. apply abs_clayer. }
+  destruct (get_deleted (lf_ver start) && get_root (lf_ver start)) eqn:Edel.
+  { eexists. split; [reflexivity|]. cbn [so_status so_tuples map]. split; [reflexivity|].
+    rewrite Eabs, clayer_S, Eg, (Hlive root start Eg Hstart Edel). cbn [flat_map map].
+    symmetry. apply spec_scan_list_nil. }
+  set (Q := fun k : key => in_left (sa_l a) (sa_le a) k && in_right (sa_r a) (sa_re a) k).
+  assert (forall cl, filter (Pabs [] (sa_l a') (sa_le a') (sa_r a) (sa_re a)) cl =
+                     filter (fun kv => Q (fst kv)) cl) as EQ.
+  { intros cl. apply filter_ext. intros kv. unfold Pabs, Q. cbn [app]. rewrite Hleft. reflexivity. }
+  assert (filter (fun kv : key * aval => in_left (sa_l a) (sa_le a) (fst kv) && in_right (sa_r a) (sa_re a) (fst kv))
+                 (abs_tree tr) =
+          map abskv (filter (fun kv => Q (fst kv)) (clayer (S (length ls)) ls [] []))) as Esel.
+  { rewrite Eabs. apply (filter_map_abskv Q). }
+  assert (mr (sa_max a) (ac_tuples empty_acc) = false) as Hmr0.
+  { unfold mr. cbn [ac_tuples empty_acc length]. destruct (sa_max a); reflexivity. }
+  rewrite Er, Ere, Emx, Ertl.
+  destruct (sa_rtl a) eqn:Rtl.
+  - (* right to left: the greatest entry *)
+    assert (sa_re a = EP_INF /\ sa_max a = 1%nat) as [Ere1 Emx1].
+    { unfold spec_scan_args_ok in Eok. rewrite Rtl in Eok.
+      apply andb_true_iff in Eok. destruct Eok as [_ Eok]. cbn [andb] in Eok.
+      apply negb_true_iff, orb_false_iff in Eok. destruct Eok as [E1 E2].
+      apply negb_false_iff in E1, E2. split; [destruct (sa_re a); try discriminate; reflexivity|].
+      apply Nat.eqb_eq. exact E2. }
+    rewrite Ere1, Emx1 in *.
+    destruct (scan_layer_rtl ctr ls W true (Hrtl eq_refl) (S (length ls)) [] [] (sa_l a') (sa_le a') (sa_r a)
+                empty_acc) as (acc' & Es & Ts); try assumption.
+    { rewrite Eg. discriminate. }
+    { cbn [length]. lia. }
+    fold empty_acc. rewrite Es. eexists. split; [reflexivity|]. cbn [so_status so_tuples].
+    split; [reflexivity|]. change (fun kv : key * value => (fst kv, abs_value (snd kv))) with abskv.
+    rewrite Ts. cbn [ac_tuples empty_acc app]. rewrite filter_rev, EQ.
+    unfold spec_scan_list. rewrite Rtl, Ere1, Esel, <- map_rev.
+    destruct (rev (filter (fun kv => Q (fst kv)) (clayer (S (length ls)) ls [] []))) as [|x xs]; reflexivity.
+  - destruct (scan_layer_fwd ctr ls W true (sa_max a) (S (length ls)) [] [] (sa_l a') (sa_le a') (sa_r a) (sa_re a)
+                empty_acc) as (acc' & Es & Ts); try assumption.
+    { rewrite Eg. discriminate. }
+    { cbn [length]. lia. }
+    fold empty_acc. rewrite Es. eexists. split; [reflexivity|]. cbn [so_status so_tuples].
+    split; [reflexivity|]. change (fun kv : key * value => (fst kv, abs_value (snd kv))) with abskv.
+    rewrite Ts. cbn [ac_tuples empty_acc app]. rewrite EQ, trunc_map.
+    unfold spec_scan_list. rewrite Rtl, Esel. reflexivity.
+Qed.
+
+(** the null storage *)
+Theorem scan_null tr a :
+  t_null tr = true ->
+  exists o, scan tr a = Some o /\
+    if spec_scan_args_ok a
+    then so_status o = St_OK_ROOT_IS_NULL /\ so_tuples o = []
+    else so_status o = St_ERR_BAD_USAGE /\ so_tuples o = [].
+Proof.
+  intros Hnull. unfold scan. destruct (scan_validate_spec a) as [V1 V2].
+  destruct (spec_scan_args_ok a) eqn:Eok.
+  - rewrite (proj2 V1 eq_refl). unfold scan_body. rewrite Hnull. eexists. split; [reflexivity|split; reflexivity].
+  - rewrite (V2 eq_refl). eexists. split; [reflexivity|split; reflexivity].
+Qed.
+
+(** ** 10. the stages, as stated in the plan (all are instances of [scan_layer_fwd] / [scan_layer_rtl]) *)
+Lemma scan_root_abs ctr ls fix2 mx l le r re :
+  WFL ctr ls None -> bytes l -> (le = EP_INF -> l = []) ->
+  exists acc', scan_layer fix2 (S (length ls)) ls mx false [] [] l le r re empty_acc = Some acc' /\
+    map abskv (ac_tuples acc') =
+      trunc mx (filter (fun kv => in_left l le (fst kv) && in_right r re (fst kv))
+                       (abs_layer (S (length ls)) ls [] [])).
+Proof.
+  intros W Hl Hinf.
+  destruct (scan_layer_fwd ctr ls W fix2 mx (S (length ls)) [] [] l le r re empty_acc) as (acc' & Es & Ts);
+    try assumption.
+  { exact (wl_exc _ _ _ W). }
+  { cbn [length]. lia. }
+  { unfold mr. cbn [ac_tuples empty_acc length]. destruct mx; reflexivity. }
+  exists acc'. split; [exact Es|]. rewrite Ts. cbn [ac_tuples empty_acc app].
+  rewrite trunc_map, abs_clayer. f_equal.
+  rewrite (filter_map_abskv (fun k => in_left l le k && in_right r re k)). reflexivity.
+Qed.
+
+(** Stage 2: unlimited, both ends infinite: the whole store, in order *)
+Theorem scan_full_partial ctr ls fix2 :
+  WFL ctr ls None ->
+  exists acc', scan_layer fix2 (S (length ls)) ls 0 false [] [] [] EP_INF [] EP_INF empty_acc = Some acc' /\
+    map abskv (ac_tuples acc') = abs_layer (S (length ls)) ls [] [].
+Proof.
+  intros W. destruct (scan_root_abs ctr ls fix2 0 [] EP_INF [] EP_INF W) as (acc' & Es & Ts);
+    [constructor|reflexivity|].
+  exists acc'. split; [exact Es|]. rewrite Ts. unfold trunc. cbn [Nat.eqb in_left in_right andb].
+  clear. induction (abs_layer (S (length ls)) ls [] []) as [|x m IH]; [reflexivity|].
+  cbn [filter]. rewrite IH. reflexivity.
+Qed.
+
+(** Stage 3: a right endpoint *)
+Theorem scan_right_partial ctr ls fix2 r re :
+  WFL ctr ls None ->
+  exists acc', scan_layer fix2 (S (length ls)) ls 0 false [] [] [] EP_INF r re empty_acc = Some acc' /\
+    map abskv (ac_tuples acc') =
+      filter (fun kv => in_right r re (fst kv)) (abs_layer (S (length ls)) ls [] []).
+Proof.
+  intros W. destruct (scan_root_abs ctr ls fix2 0 [] EP_INF r re W) as (acc' & Es & Ts);
+    [constructor|reflexivity|].
+  exists acc'. split; [exact Es|]. rewrite Ts. reflexivity.
+Qed.
+
+(** Stage 4: both endpoints; the left key may have any length (the descent truncates
+    its length to 8 bits) *)
+Theorem scan_left_partial ctr ls fix2 l le r re :
+  WFL ctr ls None -> bytes l -> (le = EP_INF -> l = []) ->
+  exists acc', scan_layer fix2 (S (length ls)) ls 0 false [] [] l le r re empty_acc = Some acc' /\
+    map abskv (ac_tuples acc') =
+      filter (fun kv => in_left l le (fst kv) && in_right r re (fst kv))
+             (abs_layer (S (length ls)) ls [] []).
+Proof.
+  intros W Hl Hinf. destruct (scan_root_abs ctr ls fix2 0 l le r re W Hl Hinf) as (acc' & Es & Ts).
+  exists acc'. split; [exact Es|]. rewrite Ts. reflexivity.
+Qed.
+
+(** Stage 5 (and the truncation of stage 6): any layer, any accumulator, any [max_size] *)
+Theorem scan_layers_partial ctr ls fix2 mx fuel p pb l le r re acc :
+  WFL ctr ls None -> layer_get ls p <> None -> (length ls < fuel + length p)%nat ->
+  bytes l -> (le = EP_INF -> l = []) -> max_reached mx acc = false ->
+  exists acc',
+    scan_layer fix2 fuel ls mx false p pb l le r re acc = Some acc' /\
+    ac_tuples acc' =
+      trunc mx (ac_tuples acc ++
+                filter (fun kv => in_left (pb ++ l) le (fst kv) && in_right r re (fst kv))
+                       (clayer fuel ls p pb)) /\
+    abs_layer fuel ls p pb = map abskv (clayer fuel ls p pb).
+Proof.
+  intros W Hex Hfuel Hl Hinf Hmr.
+  destruct (scan_layer_fwd ctr ls W fix2 mx fuel p pb l le r re acc Hex Hfuel Hl Hinf Hmr) as (acc' & Es & Ts).
+  exists acc'. split; [exact Es|]. split; [exact Ts|apply abs_clayer].
+Qed.
+
+(** Stage 6, right to left: the greatest entry of any layer *)
+Theorem scan_rtl_partial ctr ls fix2 fuel p pb l le r acc :
+  WFL ctr ls None -> rtl_ok ls -> layer_get ls p <> None -> (length ls < fuel + length p)%nat ->
+  bytes l -> (le = EP_INF -> l = []) -> ac_tuples acc = [] ->
+  exists acc',
+    scan_layer fix2 fuel ls 1 true p pb l le r EP_INF acc = Some acc' /\
+    ac_tuples acc' =
+      match rev (filter (fun kv => in_left (pb ++ l) le (fst kv)) (clayer fuel ls p pb)) with
+      | [] => []
+      | x :: _ => [x]
+      end.
+Proof.
+  intros W Hrtl Hex Hfuel Hl Hinf Hacc.
+  destruct (scan_layer_rtl ctr ls W fix2 Hrtl fuel p pb l le r acc Hex Hfuel Hl Hinf) as (acc' & Es & Ts).
+  { rewrite Hacc. reflexivity. }
+  exists acc'. split; [exact Es|]. rewrite Ts, Hacc. cbn [app]. rewrite filter_rev.
+  assert (filter (Pabs pb l le r EP_INF) (clayer fuel ls p pb) =
+          filter (fun kv => in_left (pb ++ l) le (fst kv)) (clayer fuel ls p pb)) as ->.
+  { apply filter_ext. intros kv. unfold Pabs. cbn [in_right]. apply andb_true_r. }
+  destruct (rev (filter (fun kv => in_left (pb ++ l) le (fst kv)) (clayer fuel ls p pb))); reflexivity.
+Qed.
+
+(** ** 11. decidable forms of the two extra hypotheses *)
+Definition rtl_okb (ls : layers_t) : bool :=
+  forallb (fun pr => negb (existsb (kt_eq maxsep) (bt_seps (snd pr)))) ls.
+
+Lemma rtl_okb_sound ls : rtl_okb ls = true -> rtl_ok ls.
+Proof.
+  intros H p root Eg Hin. apply layer_get_in in Eg. unfold rtl_okb in H. rewrite forallb_forall in H.
+  specialize (H _ Eg). cbn [snd] in H. apply negb_true_iff in H.
+  assert (existsb (kt_eq maxsep) (bt_seps root) = true) as X; [|congruence].
+  apply existsb_exists. exists maxsep. split; [exact Hin|reflexivity].
+Qed.
+
+Definition root_liveb (tr : tree) : bool :=
+  match layer_get (t_layers tr) [] with
+  | None => true
+  | Some root =>
+    forallb (fun lf => negb (get_deleted (lf_ver lf) && get_root (lf_ver lf))) (bt_leaves root) ||
+    match bt_elems root with [] => true | _ => false end
+  end.
+
+Lemma root_liveb_sound tr : root_liveb tr = true -> root_live tr.
+Proof.
+  unfold root_liveb, root_live. intros H root lf Eg Hin Hdel. rewrite Eg in H.
+  apply orb_true_iff in H. destruct H as [H|H].
+  - rewrite forallb_forall in H. specialize (H lf Hin). rewrite Hdel in H. discriminate.
+  - destruct (bt_elems root); [reflexivity|discriminate].
+Qed.
+
+(** ** 12. the statement without the two extra hypotheses is false: two well-formed
+    (but unreachable) stores on which the scan model and the interval specification differ *)
+Module ScanCounterexamples.
+  Definition val (i : N) : value := {| v_id := 100 + i; v_bytes := [i]; v_align := 8; v_inline := false |}.
+  Definition kA : ktuple := {| ks := 1 * 2 ^ 56; kl := 1 |}.       (* the key [1] *)
+  Definition kC : ktuple := {| ks := 3 * 2 ^ 56; kl := 1 |}.       (* the key [3] *)
+  Definition eA : slot_t := mk kA (LValue (val 1)).
+  Definition eB : slot_t := mk maxsep LLink.
+  Definition eC : slot_t := mk kC (LValue (val 3)).
+
+  Lemma okA : entry_ok eA. Proof. split; [reflexivity|cbn; lia]. Qed.
+  Lemma okB : entry_ok eB. Proof. split; reflexivity. Qed.
+  Lemma okC : entry_ok eC. Proof. split; [reflexivity|cbn; lia]. Qed.
+
+  Definition all_fwd : scan_args :=
+    {| sa_l := []; sa_le := EP_INF; sa_r := []; sa_re := EP_INF; sa_max := 0%nat; sa_rtl := false;
+       sa_lnull := false; sa_rnull := false |}.
+  Definition last_rtl : scan_args :=
+    {| sa_l := []; sa_le := EP_INF; sa_r := []; sa_re := EP_INF; sa_max := 1%nat; sa_rtl := true;
+       sa_lnull := false; sa_rnull := false |}.
+
+  (** *** 1. a non-empty root border flagged deleted: the scan returns nothing *)
+  Definition lf1 : leaf := single_leaf 1 kA (LValue (val 1)).
+  Definition root1 : bt := bt_set_ver (BLeaf lf1) (set_deleted (lf_ver lf1) true).
+  Definition cx1 : tree := {| t_layers := [([], root1)]; t_null := false |}.
+
+  Lemma cx1_wf : WF_store 2 cx1.
+  Proof.
+    destruct (single_leaf_WF_layer 1 kA (LValue (val 1)) okA) as ([Hwf Hnd] & Hel & Hids).
+    assert (WF_layer root1) as Hl1.
+    { split; [apply bt_set_ver_WF; exact Hwf|]. unfold root1. rewrite bt_set_ver_ids. exact Hnd. }
+    assert (bt_elems root1 = [eA]) as Hel1 by (unfold root1; rewrite bt_set_ver_elems; exact Hel).
+    assert (bt_ids root1 = [1]) as Hid1 by (unfold root1; rewrite bt_set_ver_ids; exact Hids).
+    assert (forall p r, layer_get [([], root1)] p = Some r -> p = [] /\ r = root1) as G.
+    { intros p r. cbn [layer_get]. destruct p; cbn [prefix_eqb]; [|discriminate].
+      intros H. injection H as <-. split; reflexivity. }
+    unfold WF_store, cx1. cbn [t_null t_layers]. constructor.
+    - cbn. constructor; [intros []|constructor].
+    - intros p r H. apply G in H. destruct H as [_ ->]. exact Hl1.
+    - intros p r i H Hi. apply G in H. destruct H as [_ ->]. rewrite Hid1 in Hi. destruct Hi as [<-|[]]. lia.
+    - intros p q rp rq i H1 H2 _ _. apply G in H1, H2. destruct H1 as [-> _], H2 as [-> _]. reflexivity.
+    - intros p r x H Hin. apply G in H. destruct H as [_ ->]. rewrite Hel1 in Hin.
+      destruct Hin as [Hin|[]]. discriminate Hin.
+    - intros p x r H. apply G in H. destruct H as [H _]. destruct p; discriminate.
+    - intros p x r s H. apply G in H. destruct H as [H _]. destruct p; discriminate.
+    - cbn. discriminate.
+  Qed.
+
+  Theorem scan_refines_needs_root_live :
+    exists ctr tr a,
+      WF_store ctr tr /\ t_null tr = false /\ bytes (sa_l a) /\ bytes (sa_r a) /\
+      rtl_ok (t_layers tr) /\ spec_scan_args_ok a = true /\
+      exists o, scan tr a = Some o /\ so_status o = St_OK /\ so_tuples o = [] /\
+                spec_scan_list (abs_tree tr) a = [([1], abs_value (val 1))].
+  Proof.
+    exists 2, cx1, all_fwd. split; [exact cx1_wf|]. split; [reflexivity|].
+    split; [constructor|]. split; [constructor|].
+    split; [apply rtl_okb_sound; vm_compute; reflexivity|]. split; [reflexivity|].
+    eexists. split; [vm_compute; reflexivity|]. split; [reflexivity|]. split; [reflexivity|].
+    vm_compute. reflexivity.
+  Qed.
+
+  (** *** 2. a separator (0xff..ff, 9): the right-to-left descent stops one border early *)
+  Definition lfA : leaf := single_leaf 10 kA (LValue (val 1)).
+  Definition lfB : leaf := single_leaf 11 maxsep LLink.
+  Definition lfC : leaf := single_leaf 12 kC (LValue (val 3)).
+  Definition root2 : bt := BInt 13 v_new_interior_parent [maxsep] [BLeaf lfA; BLeaf lfB].
+  Definition sub2 : bt := BLeaf lfC.
+  Definition cx2 : tree :=
+    {| t_layers := [([], root2); ([18446744073709551615], sub2)]; t_null := false |}.
+
+  Lemma root2_wf : WF_layer root2 /\ bt_elems root2 = [eA; eB] /\ bt_ids root2 = [13; 10; 11].
+  Proof.
+    destruct (single_leaf_spec 10 kA (LValue (val 1)) okA) as (WA & EA & IA).
+    destruct (single_leaf_spec 11 maxsep LLink okB) as (WB & EB & IB).
+    fold lfA in WA, EA, IA. fold lfB in WB, EB, IB.
+    assert (bt_elems root2 = [eA; eB]) as Hel.
+    { unfold root2. cbn [bt_elems flat_map]. rewrite EA, EB. reflexivity. }
+    assert (bt_ids root2 = [13; 10; 11]) as Hid.
+    { unfold root2. cbn [bt_ids flat_map]. rewrite IA, IB. reflexivity. }
+    split; [|split; assumption]. split.
+    - unfold root2. apply WF_int_iff. split; [cbn; lia|].
+      split; [reflexivity|]. split; [constructor; constructor|]. split; [constructor; [reflexivity|constructor]|].
+      split; [constructor; [split; exact I|constructor]|]. split.
+      + intros i Hi. cbn [length] in Hi. destruct i as [|[|i]]; [| |lia]; cbn [nth lo_at hi_at length Nat.ltb Nat.leb].
+        * apply WF_leaf_iff. split; [exact WA|]. unfold leaf_keys. rewrite EA.
+          constructor; [|constructor]. split; [exact I|reflexivity].
+        * apply WF_leaf_iff. split; [exact WB|]. unfold leaf_keys. rewrite EB.
+          constructor; [|constructor]. split; [reflexivity|exact I].
+      + intros i Hi. cbn [length] in Hi. destruct i as [|[|i]]; [| |lia]; cbn [nth bt_elems].
+        * rewrite EA. discriminate.
+        * rewrite EB. discriminate.
+    - rewrite Hid. constructor; [intros [H|[H|[]]]; discriminate|].
+      constructor; [intros [H|[]]; discriminate|]. constructor; [intros []|constructor].
+  Qed.
+
+  Lemma cx2_wf : WF_store 20 cx2.
+  Proof.
+    destruct root2_wf as (Hw2 & Hel2 & Hid2).
+    destruct (single_leaf_WF_layer 12 kC (LValue (val 3)) okC) as (HwC & HelC & HidC).
+    fold lfC in HwC, HelC, HidC. fold sub2 in HwC, HelC, HidC.
+    set (M := 18446744073709551615) in *.
+    assert (forall p r, layer_get [([], root2); ([M], sub2)] p = Some r ->
+              (p = [] /\ r = root2) \/ (p = [M] /\ r = sub2)) as G.
+    { intros p r. cbn [layer_get].
+      destruct (prefix_eqb_spec [] p) as [<-|N1].
+      - intros H. injection H as <-. left. split; reflexivity.
+      - destruct (prefix_eqb_spec [M] p) as [<-|N2]; [|discriminate].
+        intros H. injection H as <-. right. split; reflexivity. }
+    unfold WF_store, cx2. cbn [t_null t_layers]. fold M. constructor.
+    - cbn [map fst]. constructor; [intros [H|[]]; discriminate|]. constructor; [intros []|constructor].
+    - intros p r H. destruct (G p r H) as [[_ ->]|[_ ->]]; assumption.
+    - intros p r i H Hi. destruct (G p r H) as [[_ ->]|[_ ->]].
+      + rewrite Hid2 in Hi. destruct Hi as [<-|[<-|[<-|[]]]]; lia.
+      + rewrite HidC in Hi. destruct Hi as [<-|[]]. lia.
+    - intros p q rp rq i H1 H2 I1 I2.
+      destruct (G p rp H1) as [[-> ->]|[-> ->]], (G q rq H2) as [[-> ->]|[-> ->]]; try reflexivity; exfalso.
+      + rewrite Hid2 in I1. rewrite HidC in I2. destruct I2 as [<-|[]].
+        destruct I1 as [H|[H|[H|[]]]]; discriminate.
+      + rewrite Hid2 in I2. rewrite HidC in I1. destruct I1 as [<-|[]].
+        destruct I2 as [H|[H|[H|[]]]]; discriminate.
+    - intros p r x H Hin _. destruct (G p r H) as [[-> ->]|[-> ->]].
+      + rewrite Hel2 in Hin. destruct Hin as [Hin|[Hin|[]]]; [discriminate Hin|].
+        unfold eB, mk, mk9, maxsep in Hin. injection Hin as <-. vm_compute. discriminate.
+      + rewrite HelC in Hin. destruct Hin as [Hin|[]]. discriminate Hin.
+    - intros p x r H. destruct (G _ r H) as [[E _]|[E ->]].
+      + destruct p; discriminate.
+      + destruct p as [|y p]; [|destruct p; discriminate].
+        cbn in E. injection E as ->. split; [rewrite HelC; discriminate|].
+        exists root2. split; [reflexivity|]. rewrite Hel2. right. left. reflexivity.
+    - intros p x r s H Hin. destruct (G _ r H) as [[E _]|[E ->]].
+      + destruct p; discriminate.
+      + rewrite HelC in Hin. destruct Hin as [<-|[]]. cbn. lia.
+    - cbn. discriminate.
+  Qed.
+
+  Theorem scan_refines_needs_rtl_ok :
+    exists ctr tr a,
+      WF_store ctr tr /\ t_null tr = false /\ bytes (sa_l a) /\ bytes (sa_r a) /\
+      root_live tr /\ spec_scan_args_ok a = true /\
+      exists o, scan tr a = Some o /\ so_status o = St_OK /\
+                map fst (so_tuples o) = [[1]] /\
+                map fst (spec_scan_list (abs_tree tr) a) = [[255; 255; 255; 255; 255; 255; 255; 255; 3]].
+  Proof.
+    exists 20, cx2, last_rtl. split; [exact cx2_wf|]. split; [reflexivity|].
+    split; [constructor|]. split; [constructor|].
+    split; [apply root_liveb_sound; vm_compute; reflexivity|]. split; [reflexivity|].
+    eexists. split; [vm_compute; reflexivity|]. split; [reflexivity|]. split; [reflexivity|].
+    vm_compute. reflexivity.
+  Qed.
+
+  (** hence the refinement cannot be proved from [WF_store] alone *)
+  Theorem scan_refines_false_from_WF_store_alone :
+    ~ (forall ctr tr a, WF_store ctr tr -> t_null tr = false -> bytes (sa_l a) -> bytes (sa_r a) ->
+         exists o, scan tr a = Some o /\
+           if spec_scan_args_ok a
+           then so_status o = St_OK /\
+                map (fun kv => (fst kv, abs_value (snd kv))) (so_tuples o) = spec_scan_list (abs_tree tr) a
+           else so_status o = St_ERR_BAD_USAGE /\ so_tuples o = []).
+  Proof.
+    intros H.
+    destruct (H 2 cx1 all_fwd cx1_wf eq_refl ltac:(constructor) ltac:(constructor)) as (o & Es & Ho).
+    change (spec_scan_args_ok all_fwd) with true in Ho. cbv iota in Ho. destruct Ho as [_ Ho].
+    assert (scan cx1 all_fwd = Some {| so_status := St_OK; so_tuples := []; so_nv := [(1, lf_ver (match root1 with BLeaf l => l | _ => lf1 end))] |}) as E
+      by (vm_compute; reflexivity).
+    rewrite E in Es. injection Es as <-. cbn [so_tuples map] in Ho.
+    assert (spec_scan_list (abs_tree cx1) all_fwd = [([1], abs_value (val 1))]) as E2 by (vm_compute; reflexivity).
+    rewrite E2 in Ho. discriminate Ho.
+  Qed.
+End ScanCounterexamples.
